@@ -183,6 +183,10 @@ def sx_op(op):
         return "(%s %s %s)" % (k, nums(op[1]), sx_plan(op[2]))
     if k == "reset":
         return "(reset)"
+    if k == "on":
+        return "(on %d %s)" % (op[1], sx_op(op[2]))
+    if k in ("copy", "assign", "move", "saveload"):
+        return "(%s %d %d)" % (k, op[1], op[2])
     raise ValueError(op)
 
 def txt_plan(plan):
@@ -213,6 +217,10 @@ def txt_op(op):
         return "D1 | %s | %s" % (nums(op[1]), txt_plan(op[2]))
     if k == "reset":
         return "RESET | |"
+    if k == "on":
+        return "@%d %s" % (op[1], txt_op(op[2]))
+    if k in ("copy", "assign", "move", "saveload"):
+        return "%s %d %d | |" % (k.upper(), op[1], op[2])
     raise ValueError(op)
 
 # ----------------------------------------------------------------------------------------------
@@ -372,13 +380,13 @@ def gen_cxx(md, policy=0):
     w("  }")
     for path, m in sorted(machines, key=lambda pm: -len(pm[0])):
         name = pname(path)
-        w("  static void snap_%s(M_%s& f) {" % (name, name))
-        w("    std::printf(\"SNAP %s [%s]\\n\", H::lp(f.path()).c_str(), H::obs(f).c_str());")
+        w("  static void snap_%s(M_%s& f, const char* tag = \"SNAP\") {" % (name, name))
+        w("    std::printf(\"%s %s [%s]\\n\", tag, H::lp(f.path()).c_str(), H::obs(f).c_str());")
         w("    for (int a : H::ids(f)) {")
         for i, st in enumerate(m["states"]):
             if st["sub"] is not None:
                 sub = pname(path + (i,))
-                w("      if (a == H::lib_id(\"%s\", %d)) snap_%s(f.template get_state<M_%s&>());" % (pstr(path), i, sub, sub))
+                w("      if (a == H::lib_id(\"%s\", %d)) snap_%s(f.template get_state<M_%s&>(), tag);" % (pstr(path), i, sub, sub))
         w("    }")
         w("  }")
     w("};")
@@ -422,8 +430,8 @@ def supported(md, cfgname):
     for path, m in walk(md["root"]):
         if base == "back11" and m["irows"]:
             return False      # back11: a machine's own internal_transition_table does not compile (Event& vs const Event)
-        if base == "back11" and any(isinstance(st["kind"], list) and st["kind"][0] == "exitpt" for st in m["states"]):
-            return False      # back11: the const event forwarded by an exit point does not compile against chained rows
+        if base == "back11" and any((isinstance(st["kind"], list) and st["kind"][0] == "exitpt") or st["kind"] == "entrypt" for st in m["states"]):
+            return False      # back11: the const event re-dispatched by an exit / entry point does not compile against chained rows
     has_any = any(r["trig"] == "any" for _, m in walk(md["root"]) for r in all_rows(m))
     has_base = any(p is not None for p in md["parents"])
     if (has_any or has_base) and base in ("back_fct", "mp11_fct", "mp11_fpa", "back11"):
@@ -455,3 +463,10 @@ def adapt(md, cfgname):
     for _, m in walk(md2["root"]):
         m["irows"] = []
     return md2 if supported(md2, cfgname) else None
+
+
+def adapt_ops(ops, cfgname):
+    """operations that only one engine offers are replaced for the others: move construction exists for backmp11 only"""
+    if cfgname.split(":")[0].startswith("mp11"):
+        return ops
+    return [("copy", o[1], o[2]) if o[0] == "move" else o for o in ops]
